@@ -416,7 +416,7 @@ pub fn run(o: &Opts) -> i32 {
     {
         let small = crate::sweep::small_types();
         let random_items: usize = if thorough { 600_000 } else { 12_000 };
-        let total_items = small.len() + 65 * 16 + random_items;
+        let total_items = small.len() + 65 * 16 + crate::sweep::INT_ITEMS + random_items;
         let mut st = crate::sweep::SweepStats::default();
         let shard = o.shard;
         let shards = o.shards;
